@@ -30,7 +30,7 @@ def gen_scenarios(wd, depth, simulate_n, seed, sample_mod):
                 n += 1
         exhaustive_n = n
         if simulate_n:
-            cfg2 = cfg.replace("MaxDepth = %d" % depth, "MaxDepth = 7").replace("MaxTso = 4", "MaxTso = 9")
+            cfg2 = cfg.replace("MaxDepth = %d" % depth, "MaxDepth = 7").replace("MaxTso = 4", "MaxTso = 9").replace("VIEW VIEW_\n", "")
             open(os.path.join(gd, "Sim_run.cfg"), "w").write(cfg2)
             r2 = vlib.run_tlc(gd, "MC_MVCC", cfg="Sim_run.cfg", workers=1, timeout=1200,
                               simulate="num=%d" % simulate_n, extra=["-depth", "14", "-seed", str(seed)])
@@ -79,10 +79,10 @@ def run(tier, seed, replay=None):
             raise vlib.Infra("MC_MVCC fails on the specification itself (%s):\n%s" % (mc.invariant, mc.out[-2500:]))
         vlib.clean_tlc_dir(os.path.join(wd, "mc"))
         if tier == "quick":
-            scen, nex, nsim, total, _ = gen_scenarios(wd, 2, 150, seed, 1)
+            scen, nex, nsim, total, _ = gen_scenarios(wd, 3, 60, seed, 3)
             nrand, rlen = 400, 40
         else:
-            scen, nex, nsim, total, _ = gen_scenarios(wd, 3, 20000, seed, 12)
+            scen, nex, nsim, total, _ = gen_scenarios(wd, 4, 3000, seed, 5)
             nrand, rlen = 6000, 60
         gen_info = dict(model_paths_exhaustive=nex, model_paths_total_at_depth=total, model_paths_simulated=nsim)
         trace = os.path.join(wd, "trace.ndjson")
@@ -124,7 +124,7 @@ def run(tier, seed, replay=None):
             sit.add((c, kind(e["resp"])))
     cov = dict(states=mc.distinct if mc else 1, transitions=mc.generated if mc else 1, traces_validated_against_impl=len(runs),
                evaluations=sum(cmds.values()), distinct_nontrivial=len({json.dumps(e["cmd"], sort_keys=True) + json.dumps(e["proj"], sort_keys=True) for e in events if e.get("ev") == "cmd"}),
-               rule="commands executed on mocktikv.MVCCLevelDB: every model path up to the generator depth (or a seed-selected residue class of them), "
+               rule="commands executed on mocktikv.MVCCLevelDB: an edge cover of the model's state graph up to the generator depth (one scenario per transition; a seed-selected residue class of them), "
                     "TLC-simulated deep paths, seeded random walks over 4 keys / 4 transactions; distinct = distinct (command, resulting projection)",
                per_command=cmds, command_answer_kinds_seen=sorted("%s:%s" % x for x in sit), exhaustive=False,
                samples=[e for e in events if e.get("ev") == "cmd"][:2] + [e for e in events if e.get("ev") == "cmd"][-1:],
